@@ -166,7 +166,8 @@ Proof.
       constructor; unfold s1, t_count, M.set_node; cbn [M.nodes M.grants]; rewrite ?upd_eq;
         cbn [M.term M.voted M.rl M.log M.commit M.votesFrom M.matchIdx]; unfold S1; rewrite ?nd_upd;
         [exact A1|exact A2|exact A3|exact A4|exact A5| |exact A7|exact A8].
-      intros Hx. rewrite Hmem. cbn [length]. rewrite (A6 Hx).
+      intros Hx. rewrite Hmem. destruct (A6 Hx) as [A6a A6b]. split; [|right; exact A6b].
+      cbn [length]. rewrite A6a.
       change (votes (nd S0 <| votes := votes (nd S0) + 1 |>)) with (votes (nd S0) + 1). lia.
     - eapply Hn_hv; [|apply (LS_h _ _ _ _ _ L)]. reflexivity.
     - apply (LS_self _ _ _ _ _ L).
@@ -186,7 +187,7 @@ Proof.
   intros L Hm. unfold on_message. set (S0 := start_S e x) in *.
   destruct ((role (nd S0) =? LEADER) && (t =? term (nd S0))) eqn:G; [|exists s; split; [constructor|exact L]].
   apply andb_true_iff in G as [G1 G2]. apply N.eqb_eq in G1, G2.
-  set (S1 := if rs then upd (fun n0 => n0 <| next_idx := aset a nx (next_idx n0) |>) S0 else S0).
+  set (S1 := if rs then upd _ S0 else S0).
   assert (L1 : LS n s S1).
   { unfold S1. destruct rs; [|exact L]. apply (LS_quiet c V n s S0); [exact L|reflexivity|apply grow_upd]. }
   assert (R1 : role (nd S1) = LEADER /\ term (nd S1) = term (nd S0) /\ match_idx (nd S1) = match_idx (nd S0)).
@@ -231,14 +232,23 @@ Proof.
     + exists []. rewrite app_nil_r. split; auto. apply Ro_nil.
   - (* a read-only node: no abstract counterpart *)
     exists s. split; [constructor|]. apply Hfin.
-    apply (LS_keep c V n s S1 S2); auto; try reflexivity.
+    apply (LS_ksn c V n s s S1 S2).
+    + constructor.
+    + exact L1.
     + pose proof (LS_n _ _ _ _ _ L1) as RN. destruct RN as [A1 A2 A3 A4 A5 A6 A7 A8].
-      constructor; unfold S2; rewrite ?nd_upd; cbn; auto.
-      intros f m Hf Hne Hg. rewrite ProofsCommitBase.aget_aset in Hg.
+      constructor; unfold S2; rewrite ?nd_upd;
+        [exact A1|exact A2|exact A3|exact A4|exact A5|exact A6| |exact A8].
+      intros f m Hf Hne Hg.
+      change (match_idx (nd S1 <| match_idx := aset a (nx - 1) (match_idx (nd S1)) |>
+                               <| next_idx := aset a nx (next_idx (nd S1)) |>))
+        with (aset a (nx - 1) (match_idx (nd S1))) in Hg.
+      rewrite ProofsCommitBase.aget_aset in Hg.
       destruct (f =? a) eqn:Efa; [|eauto].
       apply N.eqb_eq in Efa. subst f. specialize (VRO a Hf). lia.
     + eapply Hn_hv; [|apply (LS_h _ _ _ _ _ L1)]. reflexivity.
-    + apply grow_upd.
+    + apply (LS_self _ _ _ _ _ L1).
+    + apply (LS_others _ _ _ _ _ L1).
+    + exists []. rewrite app_nil_r. split; auto. apply Ro_nil.
 Qed.
 
 (* ---- ApplyCmd / ApplyResp ---- *)
